@@ -172,3 +172,42 @@ Lemma trace_all_parked cf sched t :
   let c := snd (lock_trace cf sched (binit cf) []) in
   zero cf (fst c) t (snd c t) = false.
 Proof. exact (lock_trace_all_parked cf sched (binit cf) [] (binit_all_parked cf) t). Qed.
+
+(* the sites the acceptor reports: for the k-th logged event the site of the acting thread in the state
+   reached by the first k events *)
+Fixpoint sites (cf : cfg) (sched : list nat) (c : bshared * (nat -> bpc)) : list nat :=
+  match sched with
+  | [] => []
+  | t :: r => bsite cf (fst c) t (snd c t) :: sites cf r (lock_step cf c t)
+  end.
+
+Lemma lock_trace_sites cf : forall sched c acc,
+  fst (lock_trace cf sched c acc) = rev acc ++ sites cf sched c.
+Proof.
+  induction sched as [|t r IH]; intros c acc; cbn [lock_trace sites fst].
+  - now rewrite app_nil_r.
+  - rewrite IH. cbn [rev]. now rewrite <- app_assoc.
+Qed.
+
+(* a reported site 0 means that the acting thread has finished (its task returned, or no task was ever
+   spawned for it): the implementation logs only sites >= 1, so an event of such a thread is always
+   rejected by the comparison, never accepted vacuously *)
+Fixpoint sites_final (cf : cfg) (sched : list nat) (c : bshared * (nat -> bpc)) : Prop :=
+  match sched with
+  | [] => True
+  | t :: r => (bsite cf (fst c) t (snd c t) = 0%nat -> bfinal (snd c t) = true) /\
+              sites_final cf r (lock_step cf c t)
+  end.
+
+Lemma sites_final_holds cf : forall sched c, all_parked cf c -> sites_final cf sched c.
+Proof.
+  induction sched as [|t r IH]; intros c H; cbn [sites_final]; [exact I|]. split.
+  - intros Hs. specialize (H t). unfold parked, zero in H. rewrite Hs in H. cbn in H.
+    destruct (bfinal (snd c t)); [reflexivity|discriminate H].
+  - apply IH. now apply lock_step_all_parked.
+Qed.
+
+Lemma trace_sites cf sched :
+  fst (lock_trace cf sched (binit cf) []) = sites cf sched (binit cf) /\
+  sites_final cf sched (binit cf).
+Proof. split; [apply (lock_trace_sites cf sched (binit cf) [])|apply sites_final_holds, binit_all_parked]. Qed.
